@@ -176,7 +176,7 @@ func Convert(graph gdbi.GraphInterface, dataType gdbi.DataType, markTypes map[st
 			case gdbi.EdgeData:
 				var ee *gripql.Edge
 				if !v.Loaded {
-					ee = graph.GetEdge(ee.Gid, true).ToEdge()
+					ee = graph.GetEdge(v.ID, true).ToEdge()
 				} else {
 					ee = v.ToEdge()
 				}
@@ -225,6 +225,10 @@ func Convert(graph gdbi.GraphInterface, dataType gdbi.DataType, markTypes map[st
 
 	case gdbi.AggregationData:
 		agg := t.GetAggregation()
+		if agg == nil {
+			// a statement after aggregate() replaced the aggregation row
+			return &gripql.QueryResult{Result: &gripql.QueryResult_Aggregations{}}
+		}
 		sValue, _ := structpb.NewValue(agg.Key)
 		return &gripql.QueryResult{
 			Result: &gripql.QueryResult_Aggregations{
